@@ -85,12 +85,14 @@ def gen_cases(tier, seed):
         yield {'ops': ops, 'absent': ['nope', 'zz9']}
     n = 3000 if tier == 'quick' else 16 * 5000
     for i in range(n):
-        yield gen_one(random.Random(f'C17/{seed}/{tier}/{i}'), tier)
+        case = gen_one(random.Random(f'C17/{seed}/{tier}/{i}'), tier)
+        case['falsy_handles'] = i % 5 == 0
+        yield case
 
 
 def run_case(case):
     res = Res()
-    drv = tl.TreeDriver(res)
+    drv = tl.TreeDriver(res, falsy=case.get('falsy_handles', False))
     desper = drv.desper
     for n, op in enumerate(case['ops']):
         if n and n == len(case['ops']) // 2:
